@@ -64,6 +64,8 @@ type c28Reply struct {
 	Samplers   []string      `json:"samplers,omitempty"` // "<key>=<type>"
 	Stages     int           `json:"stages,omitempty"`
 	Stacks     string        `json:"stacks,omitempty"`
+	// requests the fake upstream is serving right now (stacks op)
+	UpstreamInFlight int `json:"upstream_in_flight,omitempty"`
 	// start
 	HTTPAddr string `json:"http_addr,omitempty"`
 	PeerAddr string `json:"peer_addr,omitempty"`
@@ -123,7 +125,7 @@ func TestC28Worker(t *testing.T) {
 				sut.Stop()
 				sut = nil
 			}
-			s, err := authStartSUT(authSUTOpts{Config: c28RouterConfig(), Rules: c28RouterRules(), OnError: onError, Peer: true, HoneyDiscard: true,
+			s, err := authStartSUT(authSUTOpts{Config: c28RouterConfig(), Rules: c28RouterRules(), OnError: onError, Peer: true, HoneyDiscard: true, AuthScript: c28AuthScript, BatchTimeout: 2 * time.Second,
 				KeyIDs: map[string]string{}})
 			if err != nil {
 				enc.Encode(c28Reply{Err: err.Error()})
@@ -137,7 +139,11 @@ func TestC28Worker(t *testing.T) {
 		case "stacks":
 			buf := make([]byte, 4<<20)
 			buf = buf[:runtime.Stack(buf, true)]
-			enc.Encode(c28Reply{OK: true, Stacks: string(buf)})
+			r := c28Reply{OK: true, Stacks: string(buf)}
+			if sut != nil {
+				r.UpstreamInFlight = int(sut.Honey.inflight.Load())
+			}
+			enc.Encode(r)
 		case "sync":
 			pmu.Lock()
 			r := c28Reply{OK: true, Panics: caught}
@@ -174,6 +180,25 @@ const (
 	c28LegacyKey  = "c28c28c28c28c28c28c28c28c28c28ab"
 	c28EnvKey     = "c28envkeyc28envkey0001"
 )
+
+// keys whose environment lookup (/1/auth at the fake Honeycomb) is scripted to fail
+var c28AuthKeys = map[string]string{
+	"auth401":     "c28auth401key000000001",
+	"auth500":     "c28auth500key000000001",
+	"authgarbage": "c28authgarbagekey00001",
+	"authhangup":  "c28authhangupkey000001",
+	"authslow":    "c28authslowkey00000001",
+	"env2":        "c28envkeyc28envkey0002",
+}
+
+func c28AuthScript(key string) string {
+	for name, k := range c28AuthKeys {
+		if k == key && strings.HasPrefix(name, "auth") {
+			return strings.TrimPrefix(name, "auth")
+		}
+	}
+	return ""
+}
 
 func c28RouterRules() map[string]any {
 	return map[string]any{
@@ -764,6 +789,38 @@ func c28BusyFrame(dump string) (frame, block string) {
 		}
 	}
 	return "", ""
+}
+
+var c28GoroutineHdr = regexp.MustCompile(`^goroutine (\d+) \[([^\],]+)`)
+
+// c28BlockedHandler finds, in a runtime.Stack(all) dump, a request-handling
+// goroutine (net/http conn.serve or a gRPC stream handler, with refinery route
+// frames) that is parked on a lock, channel or select: not running, not
+// runnable, not waiting for the network, not sleeping.
+func c28BlockedHandler(dump string) (id, state, frame, block string) {
+	for _, blk := range strings.Split(dump, "\n\n") {
+		first := strings.SplitN(blk, "\n", 2)[0]
+		m := c28GoroutineHdr.FindStringSubmatch(first)
+		if m == nil {
+			continue
+		}
+		st := m[2]
+		parked := strings.HasPrefix(st, "sync.") || strings.HasPrefix(st, "semacquire") || strings.HasPrefix(st, "chan ") || st == "select" || strings.HasPrefix(st, "select (no cases)")
+		if !parked {
+			continue
+		}
+		if !strings.Contains(blk, "github.com/honeycombio/refinery/route.") {
+			continue
+		}
+		if !strings.Contains(blk, "net/http.(*conn).serve") && !strings.Contains(blk, "google.golang.org/grpc.(*Server).") {
+			continue
+		}
+		_, ref := c28TopFrames(strings.Replace(blk, first, "goroutine "+m[1]+" [running]:", 1))
+		if ref != "" {
+			return m[1], st, ref, blk
+		}
+	}
+	return "", "", "", ""
 }
 
 var c28NonWord = regexp.MustCompile(`[^a-zA-Z]+`)
